@@ -58,7 +58,15 @@ func cmdRun(argv []string) int {
 		pprof.StartCPUProfile(f)
 		defer pprof.StopCPUProfile()
 	}
-	ov, err := buildOverlay(map[string][]string{*pkg: splitList(*files)})
+	spec := map[string][]string{}
+	for _, f := range splitList(*files) {
+		p := *pkg
+		if i := strings.Index(f, ":"); i > 0 {
+			p, f = f[:i], f[i+1:]
+		}
+		spec[p] = append(spec[p], f)
+	}
+	ov, err := buildOverlay(spec)
 	if err != nil {
 		fmt.Fprintln(os.Stderr, err)
 		return 2
